@@ -332,7 +332,12 @@ class World(BaseWorld):
         family = self.family
         for k, spec in enumerate(op["values"]):
             v = self.make(spec)
-            if v is not None:
+            if v is not None and spec.get("which") == "Plain":
+                name = spec.get("name", "p%d" % k)
+                self.note("values_scanned", scan_value(v, "plain monoidal box"))
+                self.pool[name] = {"real": v, "fp": fingerprint(v)}       # (put() keeps to the family's class)
+                self.note("plain_boxes_pooled")
+            elif v is not None:
                 self.put(spec.get("name", "p%d" % k), v, "constructed value")
         return "pool of %d" % len(self.pool)
 
@@ -381,6 +386,11 @@ class World(BaseWorld):
             return cls(spec["n"], spec["m"], spec.get("phase", 0))
         if family == "tensor":
             return mod.Spider(spec["n"], spec["m"], mod.Dim(spec.get("dim", 2)))
+        if family == "rigid" and spec["which"] == "Plain":
+            # a box of the plain monoidal class with plain (name-only) objects: legal company for rigid
+            # diagrams wherever its wires meet wires that are no adjoints
+            from discopy import monoidal
+            return monoidal.Box(spec["name"], monoidal.Ty(*spec["dom"]), monoidal.Ty(*spec["cod"]))
         if family == "rigid":
             # pregroup words, some with a free symbol in their data (for subs / lambdify)
             import sympy
@@ -955,6 +965,10 @@ class Driver:
         if family == "tensor":
             return {"kind": "special", "which": "Spider", "n": gen.randint(0, 3), "m": gen.randint(0, 3),
                     "dim": gen.choice([2, 3])}
+        if family == "rigid" and gen.random() < 0.3:
+            return {"kind": "special", "which": "Plain", "name": gen.choice(["g", "h"]),
+                    "dom": [gen.choice("ab") for _ in range(gen.randint(0, 2))],
+                    "cod": [gen.choice("ab") for _ in range(gen.randint(0, 2))]}
         if family == "rigid":
             return {"kind": "special", "which": "Word", "name": gen.choice(["Alice", "loves", "Bob"]),
                     "ty": atoms("rigid", gen, gen.randint(1, 3)), "sym": gen.random() < 0.6}
